@@ -10,7 +10,7 @@ from vfcore import REPO, VERIF
 META = {
     "engine": "gen", "level": "exploration", "design_ref": "DESIGN.md §4.4 C36",
     "technique": "the real mfront run repeatedly on the repository corpus under different histories and environments (fresh dir, dir holding other generated files, other TZ/LANG/HOME/env order/cwd depth, wall clock shifted by an LD_PRELOAD shim); byte comparison of every generated source",
-    "text": "Every (file, interface) of the sampled corpus is generated in a reference fresh directory and again under perturbed conditions: a second fresh directory at another depth, a directory that already holds files generated from other inputs, a different TZ/LANG/LC_ALL/HOME and extra environment variables, and a wall clock shifted by ~1 year through an LD_PRELOAD shim. Any byte difference in include/** or src/*.cxx|hxx for that input is a violation; src/targets.lst (the registry, C47) is excluded by name.",
+    "text": "Every (file, interface) of the sampled corpus is generated in a reference fresh directory and again under perturbed conditions: a second fresh directory at another depth, a directory that already holds files generated from other inputs, a different TZ/LANG/LC_ALL/HOME and extra environment variables, a wall clock shifted by ~1 year through an LD_PRELOAD shim, and one mfront process treating a behaviour, a material property and a model before the input (generic interface, random kind-specific `build_identifier` DSL options; reference = the same command line with the input alone). Any byte difference in include/** or src/*.cxx|hxx for that input is a violation; src/targets.lst (the registry, C47) is excluded by name.",
     "note": "The input is always passed by the same absolute path so that the documented path-dependent fields (the exported `*_src` symbol) are equal by construction. Trusted: the shim really shifts the clock (self-tested with `date`-like helper at start).",
 }
 
@@ -52,10 +52,13 @@ def run(ctx):
     t1 = vfcore.run(["date", "+%s"], timeout=10, env={"LD_PRELOAD": str(b["faketime"]), "VF_TIME_OFFSET": "31536000"}).out.strip()
     if not (t0.isdigit() and t1.isdigit() and abs(int(t1) - int(t0) - 31536000) < 120):
         raise vfcore.HarnessFailure("clock shim ineffective: %s vs %s" % (t0, t1))
-    ctx.cov["rule"] = ("case = (repository .mfront file, interface, scenario in {fresh2, after-others, env, clock}); distinct = distinct (file, interface, scenario); "
+    ctx.cov["rule"] = ("case = (repository .mfront file, interface, scenario in {fresh2, after-others, repeated, env, clock, same-process-after-others}); distinct = distinct (file, interface, scenario); "
                        "non-trivial = the reference run generated at least one source file")
     mf = str(vfcore.tool("plain", "mfront"))
     others = files[:3]
+    # one input of each kind, treated before `f` in the same process in the scenario same-process-after-others
+    allf = corpus(ctx)
+    others_by_kind = [next(x for x in allf if x.parent.name == k) for k in ("behaviours", "properties", "models")]
 
     def gen(d, f, itf, env=None):
         d.mkdir(parents=True, exist_ok=True)
@@ -97,7 +100,38 @@ def run(ctx):
         # shifted clock
         r = gen(base / "clock", f, itf, {"LD_PRELOAD": str(b["faketime"]), "VF_TIME_OFFSET": str(g.choice([31536000, -86400 * 400, 86400 * 3650]))})
         res.append(("clock", r.rc, snapshot(base / "clock")))
+        # several inputs treated by ONE mfront process: the sources generated for `f` must not depend on the files treated
+        # before it in the same process, nor on options that only concern the other kinds of input (kind-specific DSL
+        # options).  Reference: the same command line with `f` alone.  The generic interface exists for the three kinds.
+        kind_opt = {"properties": "--material-property-dsl-option", "behaviours": "--behaviour-dsl-option", "models": "--model-dsl-option"}
+        fk = f.parent.name
+        opts = []
+        for k, o in sorted(kind_opt.items()):
+            if g.random() < 0.6:
+                opts.append("%s=build_identifier:%s-%d" % (o, k, g.randrange(1000)))
+        mates = [o for o in others_by_kind if o != f]
+        e = {"LD_LIBRARY_PATH": vfcore.ld_path("plain")}
+        sp = ["--search-path=" + str(x.parent) for x in [f] + mates]
+
+        def multi(d, inputs):
+            d.mkdir(parents=True, exist_ok=True)
+            return vfcore.run(vfcore.isolated([mf, "--interface=generic"] + opts + sp + [str(x) for x in inputs]), timeout=180, cwd=d, env=e)
+        ra = multi(base / "alone-g", [f])
+        if ra.rc == 0:
+            refg = snapshot(base / "alone-g")
+            rm = multi(base / "same-process", mates + [f])
+            if rm.rc == 0:
+                sm = snapshot(base / "same-process")
+                diff = [k for k in refg if sm.get(k) != refg[k]]
+                res_multi = ("same-process-after-others", sorted(diff) if diff else None)
+            else:
+                res_multi = ("same-process-after-others", "SKIP" if any(x.rc != 0 for x in [multi(base / ("m%d" % j), [o]) for j, o in enumerate(mates)]) else
+                             "run failed (rc=%s) where every input succeeds alone" % rm.rc)
+        else:
+            res_multi = None
         out = []
+        if res_multi is not None:
+            out.append(res_multi)
         for name, rc, snap in res:
             if rc != 0:
                 out.append((name, "run failed (rc=%s) where the reference run succeeded" % rc))
@@ -120,6 +154,11 @@ def run(ctx):
             continue
         nref += 1
         for name, diff in out:
+            if diff == "SKIP":
+                ctx.count("same-process:not-compared(an-earlier-input-fails-alone)")
+                continue
+            if name == "same-process-after-others":
+                ctx.count("same-process:compared")
             ctx.add_eval()
             ctx.add_distinct(vfcore.sha(str(f), itf, name))
             if isinstance(diff, str):
@@ -130,4 +169,5 @@ def run(ctx):
         if nref <= 3:
             ctx.sample({"file": f.name, "interface": itf, "generated_files": len(ref), "scenarios": [n for n, _ in out]})
     ctx.cov["inputs_with_reference"] = nref
+    ctx.require(ctx.cov.get("counters", {}).get("same-process:compared", 0) >= nref // 2, "the same-process scenario was compared for too few inputs")
     ctx.require(nref >= len(files) // 3, "too few inputs generated anything (%d of %d)" % (nref, len(files)))
